@@ -12,6 +12,10 @@ let sps l = String.concat "," (List.map (fun ((t, c), b) -> hexnum_of_z t ^ (if 
 let () = run_table [
   "hashdata", (function v :: t :: pk :: h :: hashed :: s -> pr_opt hex_of_bytes_strict (hashdata (fields v t pk h hashed) (subj_of s)) | _ -> failwith "args");
   "rfc_hashdata", (function v :: t :: pk :: h :: hashed :: s -> pr_opt hex_of_bytes_strict (rfc_hashdata (fields v t pk h hashed) (subj_of s)) | _ -> failwith "args");
+  "dsa_from_signer", (function [d] -> pr_opt (fun (r, s) -> hexnum_of_z r ^ " " ^ hexnum_of_z s) (dsa_from_signer (bytes_of_hex d)) | _ -> failwith "args");
+  "der_seq2", (function [r; s] -> hex_of_bytes_strict (der_seq2 (z_of_hexnum r) (z_of_hexnum s)) | _ -> failwith "args");
+  "eddsa_from_signer", (function [d] -> pr_opt (fun (r, s) -> hexnum_of_z r ^ " " ^ hexnum_of_z s) (eddsa_from_signer (bytes_of_hex d)) | _ -> failwith "args");
+  "eddsa_sig", (function [r; s] -> hex_of_bytes_strict (eddsa_sig (z_of_hexnum r) (z_of_hexnum s)) | _ -> failwith "args");
   "canon", (function [d] -> hex_of_bytes (canon (bytes_of_hex d)) ^ " " ^ hex_of_bytes (rfc_canon (bytes_of_hex d)) | _ -> failwith "args");
   (* body after the version octet -> type pkalg halg raw hash2 mpis hashed-subpackets unhashed-subpackets *)
   "sig_parse", (function [b] -> pr_opt (fun s ->
